@@ -137,6 +137,7 @@ func loadRepo(repo string) (*Ctx, error) {
 		return nil, fmt.Errorf("no packages of %s loaded from %s", modPath, repo)
 	}
 	normaliseRenames(c)
+	normaliseSkeletonNames(c)
 	normaliseHelpers(c)
 	return c, nil
 }
